@@ -24,6 +24,7 @@ CHECKS = {
         'scenarios': [{'module': 'worlds.ci.merge', 'quick': 10000, 'thorough': 250000, 'wall_cap': {'quick': 240.0, 'thorough': 1500.0}}],
         'expected_probes': ['merge_accepted', 'merge_refused_stale_head', 'push_to_pr_during_build',
                             'target_moved_during_build', 'label_added_after_green', 'approval_revoked_after_green',
-                            'stale_batch_notification', 'merge_conflict', 'two_prs_green_same_time'],
+                            'stale_batch_notification', 'merge_conflict', 'two_prs_green_same_time', 'graphql_paged',
+                            'github_outage_hit', 'hot_action'],
     },
 }
